@@ -1486,8 +1486,12 @@ func (d *Data) storeAndUpdate(ctx *datastore.VersionedCtx, keyStr string, newDat
 		for field := range newData {
 			mdb.fields[field]++
 			if strings.HasSuffix(field, "_time") {
+				// keep the latest stamp, as a load from the store does: the annotation also
+				// carries the older stamps of the fields this request did not change
 				rootField := field[:len(field)-5]
-				mdb.fieldTimes[rootField] = newData[field].(string)
+				if timestamp, ok := newData[field].(string); ok && timestamp > mdb.fieldTimes[rootField] {
+					mdb.fieldTimes[rootField] = timestamp
+				}
 			}
 		}
 		mdb.addBodyID(bodyid)
